@@ -44,6 +44,17 @@ pub struct Flow {
     /// captured on the wire: frames shorter than the 60-byte Ethernet minimum are zero-padded
     #[serde(default)]
     pub wire: bool,
+    /// how the connection opens in the capture: 0 = handshake not captured, 1 = a bare SYN, 2 = a SYN that carries
+    /// `preamble` (TCP Fast Open)
+    #[serde(default)]
+    pub opener: u8,
+    /// cleartext the client sends in front of its TLS handshake (PROXY protocol line, CONNECT, STARTTLS dialogue):
+    /// on the SYN (opener 2) or as the first data segment; never the start of a TLS record
+    #[serde(default, with = "crate::pkt::hexser")]
+    pub preamble: Vec<u8>,
+    /// this flow reuses the 4-tuple of that earlier flow (port reuse) and starts after it has ended
+    #[serde(default)]
+    pub reuses: Option<usize>,
 }
 
 #[derive(Clone, Debug, Serialize, Deserialize)]
@@ -77,7 +88,7 @@ fn segments(stream: &[u8], cuts: &[usize]) -> Vec<(usize, usize)> {
 
 fn frame_of(f: &Flow, a: usize, b: usize, framing: Framing) -> Vec<u8> {
     let mut s = Seg::new(f.src, f.dst);
-    s.seq = f.isn.wrapping_add(1).wrapping_add(a as u32);
+    s.seq = f.isn.wrapping_add(1).wrapping_add(f.preamble.len() as u32).wrapping_add(a as u32);
     s.ack = 1;
     s.flags = pkt::ACK | pkt::PSH;
     s.payload = f.stream[a..b].to_vec();
@@ -113,6 +124,30 @@ fn frame_of(f: &Flow, a: usize, b: usize, framing: Framing) -> Vec<u8> {
         s.tos = r.u8() & 0xfc;
     }
     pkt::frame(&s, framing)
+}
+
+/// the frames in front of the record stream: the SYN (with or without the preamble) and the preamble segment
+fn opening_frames(f: &Flow, framing: Framing) -> Vec<Vec<u8>> {
+    let mut v = vec![];
+    if f.opener > 0 {
+        let mut s = Seg::new(f.src, f.dst);
+        s.seq = f.isn;
+        s.flags = pkt::SYN;
+        s.tcp_opts = vec![2, 4, 5, 0xb4];
+        if f.opener == 2 {
+            s.payload = f.preamble.clone();
+        }
+        v.push(pkt::frame(&s, framing));
+    }
+    if f.opener != 2 && !f.preamble.is_empty() {
+        let mut s = Seg::new(f.src, f.dst);
+        s.seq = f.isn.wrapping_add(1);
+        s.ack = 1;
+        s.flags = pkt::ACK | pkt::PSH;
+        s.payload = f.preamble.clone();
+        v.push(pkt::frame(&s, framing));
+    }
+    v
 }
 
 /// expected signature text for a stream: what a fresh reader reports for the first record alone
@@ -210,6 +245,13 @@ fn check_packets(scn: &Scn, cuts0: &[usize], st: &mut RunStats) -> Result<(), Vi
     let mut il = 0u64;
     let push = |fi: usize, next: &mut Vec<usize>, trace: &mut Vec<Timed>, owner: &mut Vec<(usize, usize)>, t: &mut u64| {
         let k = next[fi];
+        if k == 0 {
+            for fr in opening_frames(&scn.flows[fi], scn.framing) {
+                trace.push(Timed { t: *t, frame: fr, conn: fi });
+                owner.push((fi, usize::MAX));
+                *t += scn.gap_ns;
+            }
+        }
         if k < segs[fi].len() {
             let (a, b) = segs[fi][k];
             trace.push(Timed { t: *t, frame: frame_of(&scn.flows[fi], a, b, scn.framing), conn: fi });
@@ -219,7 +261,8 @@ fn check_packets(scn: &Scn, cuts0: &[usize], st: &mut RunStats) -> Result<(), Vi
         }
     };
     for &fi in &scn.order {
-        if fi < nfl {
+        // a flow that reuses a 4-tuple starts after everything else (the loop below), its predecessor included
+        if fi < nfl && scn.flows[fi].reuses.is_none() {
             il = crate::rng::mix64(il ^ fi as u64);
             push(fi, &mut next, &mut trace, &mut owner, &mut t);
         }
@@ -232,6 +275,12 @@ fn check_packets(scn: &Scn, cuts0: &[usize], st: &mut RunStats) -> Result<(), Vi
     st.interleaving = Some(il);
     st.sim_ns += t;
     st.packets += trace.len() as u64;
+    if scn.flows.iter().any(|f| f.reuses.is_some()) {
+        st.fault("four_tuple_reused_by_a_later_connection");
+    }
+    if scn.flows.iter().any(|f| !f.preamble.is_empty()) {
+        st.fault("cleartext_in_front_of_the_handshake");
+    }
 
     let cfg = SutCfg::new(Kind::Tls, scn.cap);
     clock::arm(1_700_000_000_000);
@@ -266,6 +315,9 @@ fn check_packets(scn: &Scn, cuts0: &[usize], st: &mut RunStats) -> Result<(), Vi
                 // attribution: the reported endpoints must be this flow's
                 if ob.src != sut::endpoints_of(&f.src) || ob.dst != sut::endpoints_of(&f.dst) {
                     return Err(Violation::new("misattributed", "packet", format!("result on a segment of flow {} carries endpoints {}->{}", fi, ob.src, ob.dst)));
+                }
+                if owner[i].1 == usize::MAX {
+                    return Err(Violation::new("spurious", "packet", format!("result on the SYN or the cleartext in front of the handshake of flow {}: {}", fi, ob.text)));
                 }
                 got.push((owner[i].1, ob.text.clone()));
             }
@@ -398,6 +450,23 @@ fn gen_cuts_hot(r: &mut Rng, len: usize, record_total: usize, hot: &[usize]) -> 
 
 fn st_probe_hot() {}
 
+/// what a client may send in clear before its TLS handshake; never something that starts like a TLS record
+fn gen_preamble(r: &mut Rng) -> Vec<u8> {
+    match r.below(6) {
+        0 => format!("PROXY TCP4 192.0.2.{} 203.0.113.{} {} 443\r\n", r.below(250), r.below(250), 1024 + r.below(60000)).into_bytes(),
+        1 => format!("CONNECT host{}.example:443 HTTP/1.1\r\nHost: host.example:443\r\n\r\n", r.below(100)).into_bytes(),
+        2 => b"STARTTLS\r\n".to_vec(),
+        3 => b"PROXY UNKNOWN\r\n".to_vec(),
+        4 => (0..r.urange(1, 4)).map(|_| b'a' + r.below(26) as u8).collect(),
+        _ => {
+            // PROXY protocol v2 binary header
+            let mut v = vec![0x0d, 0x0a, 0x0d, 0x0a, 0x00, 0x0d, 0x0a, 0x51, 0x55, 0x49, 0x54, 0x0a, 0x21, 0x11, 0x00, 0x0c];
+            v.extend(r.bytes(12));
+            v
+        }
+    }
+}
+
 fn gen_cuts(r: &mut Rng, len: usize, record_total: usize) -> Vec<usize> {
     if len <= 6 {
         return vec![];
@@ -469,10 +538,24 @@ impl Prop for C08 {
             }
             let hdr_noise = if r.chance(1, 4) { r.next_u64() | 1 } else { 0 };
             let wire = r.chance(1, 3);
-            flows.push(Flow { src, dst, isn: r.u32(), stream, record_total, cuts, hot, hdr_noise, wire });
+            let opener = if path != Path::Reader && r.chance(1, 3) { 1 + r.below(2) as u8 } else { 0 };
+            let preamble = if path != Path::Reader && (opener == 2 || r.chance(1, 8)) { gen_preamble(r) } else { vec![] };
+            flows.push(Flow { src, dst, isn: r.u32(), stream, record_total, cuts, hot, hdr_noise, wire, opener, preamble, reuses: None });
         }
         // distinct 4-tuples
         dedup_tuples(&mut flows);
+        // port reuse: one more connection on the 4-tuple of an earlier one, opened by a SYN after that one has ended
+        // (or has stopped half-way through its record)
+        if path != Path::Reader && r.chance(1, 5) {
+            let pi = r.usize_below(flows.len());
+            let (stream, record_total, hot) = gen_stream_hot(r, tier, false);
+            let mut cuts = gen_cuts_hot(r, stream.len(), record_total, &hot);
+            force_mtu(&mut cuts, stream.len());
+            let opener = 1 + r.below(2) as u8;
+            let preamble = if opener == 2 || r.chance(1, 4) { gen_preamble(r) } else { vec![] };
+            let isn = if r.chance(1, 6) { flows[pi].isn } else { r.u32() };
+            flows.push(Flow { src: flows[pi].src, dst: flows[pi].dst, isn, stream, record_total, cuts, hot, hdr_noise: 0, wire: false, opener, preamble, reuses: Some(pi) });
+        }
         let total_segs: usize = flows.iter().map(|f| f.cuts.len() + 1).sum();
         let order: Vec<usize> = (0..total_segs * 2).map(|_| r.usize_below(flows.len())).collect();
         let n_alt = tier.pick(6, 12);
@@ -509,7 +592,7 @@ impl Prop for C08 {
                 if tier == Tier::Quick && pi == 1 && h > 0 {
                     continue;
                 }
-                let flow = Flow { src: Endpoint::v4(10, 9, 0, 1, 50000), dst: Endpoint::v4(10, 9, 1, 1, 443), isn: 0xffff_ff00, stream: stream.clone(), record_total, cuts: vec![], hot: vec![], hdr_noise: 0, wire: false };
+                let flow = Flow { src: Endpoint::v4(10, 9, 0, 1, 50000), dst: Endpoint::v4(10, 9, 1, 1, 443), isn: 0xffff_ff00, stream: stream.clone(), record_total, cuts: vec![], hot: vec![], hdr_noise: 0, wire: false, opener: 0, preamble: vec![], reuses: None };
                 let mut alt: Vec<Vec<usize>> = (5..len).map(|c| vec![c]).collect();
                 if len <= 300 && tier == Tier::Thorough && h < 6 {
                     for a in 5..len {
@@ -585,7 +668,24 @@ impl Prop for C08 {
                 let mut s = scn.clone();
                 s.flows.remove(i);
                 s.order = s.order.iter().filter(|x| **x != i).map(|x| if *x > i { *x - 1 } else { *x }).collect();
+                for f in s.flows.iter_mut() {
+                    f.reuses = match f.reuses {
+                        Some(p) if p == i => None,
+                        Some(p) if p > i => Some(p - 1),
+                        x => x,
+                    };
+                }
                 out.push(s);
+            }
+        }
+        for i in 0..scn.flows.len() {
+            if !scn.flows[i].preamble.is_empty() || scn.flows[i].opener != 0 {
+                let mut s = scn.clone();
+                s.flows[i].preamble.clear();
+                s.flows[i].opener = if scn.flows[i].reuses.is_some() { 1 } else { 0 };
+                if s.flows[i].opener != scn.flows[i].opener || !scn.flows[i].preamble.is_empty() {
+                    out.push(s);
+                }
             }
         }
         if !scn.order.is_empty() {
